@@ -80,6 +80,17 @@ pub struct HttpResp {
 }
 
 pub fn http_post(port: u16, path: &str, content_type: &str, body: &[u8]) -> Result<HttpResp, String> {
+    // a transport hiccup (loaded machine) must not look like a missing answer: one retry
+    match http_post_once(port, path, content_type, body) {
+        Ok(r) => Ok(r),
+        Err(_) => {
+            std::thread::sleep(Duration::from_millis(200));
+            http_post_once(port, path, content_type, body)
+        }
+    }
+}
+
+fn http_post_once(port: u16, path: &str, content_type: &str, body: &[u8]) -> Result<HttpResp, String> {
     let mut s = TcpStream::connect(("127.0.0.1", port)).map_err(|e| format!("connect: {}", e))?;
     s.set_read_timeout(Some(Duration::from_secs(6))).ok();
     s.set_write_timeout(Some(Duration::from_secs(6))).ok();
